@@ -50,7 +50,7 @@ def same_value(v, w):
     if kv != kw:
         return False
     if kv == "float":
-        return math.isclose(v, w)
+        return math.isclose(v, w) or (v != v and w != w)      # NaN is the same value as NaN
     if kv == "list":
         return len(v) == len(w) and all(same_value(a, b) for a, b in zip(v, w))
     if kv == "dict":
@@ -73,7 +73,7 @@ def carries(v, w, precisions=(), anchors=()):
         # a date schema pinned with a date accepts only dates; kinds must agree
         return False
     if kv == "float":
-        if math.isclose(v, w):
+        if math.isclose(v, w) or (v != v and w != w):
             return True
         for p in precisions:
             try:
